@@ -872,6 +872,37 @@ impl pie::OutputChecker<u32> for Within1 {
   fn stamp(&self, o: &u32) -> u32 { *o }
   fn check(&self, o: &u32, s: &u32) -> Option<impl Debug> { if o.abs_diff(*s) > 1 { Some(*o) } else { None } }
 }
+// ---- C09: the stamp of a read is taken from the very reader handed to the task -----------------------------------------------------
+/// a resource whose `read` is not a pure observation: the first read stores the default value
+#[derive(Clone, PartialEq, Eq, Hash, Debug)] pub struct Setting(pub u8);
+impl pie::Resource for Setting {
+  type Reader<'rs> = u8; type Writer<'r> = (); type Error = std::convert::Infallible;
+  fn read<'rs, RS: ResourceState<Self>>(&self, state: &'rs mut RS) -> Result<u8, Self::Error> { let m = state.get_or_set_default_mut::<HashMap<u8, u8>>(); Ok(*m.entry(self.0).or_insert(7)) }
+  fn write<'r, RS: ResourceState<Self>>(&'r self, _state: &'r mut RS) -> Result<(), Self::Error> { Ok(()) }
+}
+#[derive(Copy, Clone, PartialEq, Eq, Hash, Debug)] pub struct SettingEquals;
+impl ResourceChecker<Setting> for SettingEquals {
+  type Stamp = Option<u8>; type Error = std::convert::Infallible;
+  fn stamp<RS: ResourceState<Setting>>(&self, k: &Setting, s: &mut RS) -> Result<Option<u8>, Self::Error> { Ok(s.get::<HashMap<u8, u8>>().and_then(|m| m.get(&k.0).copied())) }
+  fn stamp_reader(&self, _k: &Setting, r: &mut u8) -> Result<Option<u8>, Self::Error> { Ok(Some(*r)) }
+  fn stamp_writer(&self, _k: &Setting, _w: ()) -> Result<Option<u8>, Self::Error> { Ok(None) }
+  fn check<RS: ResourceState<Setting>>(&self, k: &Setting, s: &mut RS, stamp: &Option<u8>) -> Result<Option<impl Debug>, Self::Error> { let now = s.get::<HashMap<u8, u8>>().and_then(|m| m.get(&k.0).copied()); Ok(if now != *stamp { Some(now) } else { None }) }
+  fn wrap_error(&self, e: std::convert::Infallible) -> Self::Error { e }
+}
+thread_local! { static SETTING_RUNS: Cell<u32> = Cell::new(0); }
+#[derive(Clone, PartialEq, Eq, Hash, Debug)] pub struct ReadsSetting(pub u8);
+impl Task for ReadsSetting { type Output = u8; fn execute<C: Context>(&self, c: &mut C) -> u8 { SETTING_RUNS.with(|r| r.set(r.get() + 1)); c.read(&Setting(self.0), SettingEquals).unwrap() } }
+pub fn read_stamp_is_taken_from_the_reader() -> Result<(), Fail> {
+  SETTING_RUNS.with(|r| r.set(0));
+  let mut pie: Pie<()> = Pie::default();
+  let a = pie.new_session().require(&ReadsSetting(1));
+  let b = pie.new_session().require(&ReadsSetting(1));   // nothing changed: the dependency created in the first build is consistent
+  let runs = SETTING_RUNS.with(|r| r.get());
+  if (a, b) != (7, 7) { fail!("C09", "C09.bounded.read_stamp_is_taken_from_the_reader_handed_to_the_task", "a task reading a setting (default 7) returned {} and then {}", a, b); }
+  if runs != 1 { fail!("C09", "C09.bounded.read_stamp_is_taken_from_the_reader_handed_to_the_task", "nothing changed between two builds, yet the task reading a resource whose first read stores a default was executed {} times: the stamp of its read does not describe what the reader handed to the task saw", runs); }
+  Ok(())
+}
+
 // ---- C15: a task and a resource never share a node, even when one type plays both roles with equal values ------------------------
 #[derive(Clone, PartialEq, Eq, Hash, Debug)] pub struct Both(pub u8);
 impl MapKey for Both { type Value = u8; }
